@@ -877,6 +877,10 @@ V("C19", "threshold-helper-no-handler", L,
 V("C19", "defect-F20-returns", "psutil/_psbsd.py",
   ("                continue\n            min_freq = max_freq = None\n            if available_freq:",
    "                continue\n            if available_freq:"), "fires:C19.R5")
+V("C20", "defect-F21-returns", "psutil/_psbsd.py",
+  ("                        raise NoSuchProcess(pid, name) from err\n                    # XXX: this happens with unicode tests.",
+   "                        raise NoSuchProcess(pid, name, ppid) from err\n                    # XXX: this happens with unicode tests."),
+  "fires:C20.R2")
 # ----------------------------------------------------------------- C17
 UC = "psutil/arch/linux/users.c"
 PC = "psutil/arch/linux/proc.c"
